@@ -45,7 +45,7 @@ C[0-9][0-9])
     if [ "$tier" = "thorough" ] && [ -d "$ROOT/harness/fuzz" ]; then
         # the fuzz targets link kiki too: rebuild them from the current tree (cargo fingerprints make this a no-op when nothing changed)
         (cd "$ROOT/harness" && cargo +nightly fuzz build -O -s none >"$ROOT/.work/fuzz-build.log" 2>&1) || \
-            { echo "fuzz targets do not build; removing stale binaries so that the run records the E3 part as skipped" >&2; rm -rf "$ROOT/harness/fuzz/target/x86_64-unknown-linux-gnu/release/"{text_frontend,grammar_struct,oset_ops,hash_header}; }
+            { echo "fuzz targets do not build; removing stale binaries so that the run records the E3 part as skipped" >&2; rm -rf "$ROOT/harness/fuzz/target/x86_64-unknown-linux-gnu/release/"{text_frontend,grammar_struct,oset_ops,hash_header,raw_struct}; }
     fi
     exec "$ROOT/harness/target/release/verif" check "$id" --tier "$tier"
     ;;
